@@ -181,7 +181,11 @@ func emitBuiltins(em *Emitter, repoDir string, seedv int64, pass int) {
 			prod *big.Int
 		}
 		var leaves []lf
+		misaligned := false
 		complete, _ := e.Tree(5000, func() { s, ent = fn() }, func(plan []uint32, o RunOut) bool {
+			if o.Prefetch || o.Unannounced > 0 || o.Unstable || o.NoRep {
+				misaligned = true // the reads cannot be attributed to the draws: no exact distribution from this tree
+			}
 			prod := big.NewInt(1)
 			for _, d := range o.Draws {
 				prod.Mul(prod, big.NewInt(int64(d.N)))
@@ -213,7 +217,8 @@ func emitBuiltins(em *Emitter, repoDir string, seedv int64, pass int) {
 			}
 			vs = append(vs, map[string]interface{}{"v": CPs(v), "w": int(vals[v].w.Int64()), "ents": es})
 		}
-		em.Emit(map[string]interface{}{"op": "preset", "name": name, "den": int(den.Int64()), "complete": b2i(complete), "leaves": len(leaves), "vals": vs})
+		em.Emit(map[string]interface{}{"op": "preset", "name": name, "den": int(den.Int64()), "complete": b2i(complete), "leaves": len(leaves), "vals": vs,
+			"misaligned": b2i(misaligned)})
 	}
 	// shipped lists against their data files, in chunks (first pass only)
 	if pass > 0 {
